@@ -107,6 +107,13 @@ Proof.
   - unfold bind. simpl. rewrite IH. simpl. rewrite <- app_assoc. simpl. destruct s; reflexivity.
 Qed.
 
+Lemma bind_assoc {A B C} (m : M A) (k : A -> M B) (k' : B -> M C) s :
+  bind (bind m k) k' s = bind m (fun a => bind (k a) k') s.
+Proof. unfold bind. destruct (m s); reflexivity. Qed.
+Lemma wp_assoc {A B C} (m : M A) (k : A -> M B) (k' : B -> M C) Q s :
+  wp (bind m (fun a => bind (k a) k')) Q s <-> wp (bind (bind m k) k') Q s.
+Proof. unfold wp. rewrite bind_assoc. reflexivity. Qed.
+
 (* ---------- tactics ---------- *)
 (* one step of symbolic execution on a goal  wp (m ;; k) Q s  /  wp prim Q s *)
 Ltac wp_prim :=
